@@ -18,13 +18,13 @@ func init() {
 
 // lazyDocs: small documents that between them exercise every lazy path of serialisation.
 var lazyDocs = map[string]string{
-	"regex": "JSIGHT 0.3\nTYPE @r regex\n/[a-z]{5}-[0-9]{3}/\nGET /a\n  Request regex\n  /[A-Z]{7}/\n  200 regex\n  /[0-9]{8}/\n  404 @r\n",
-	"allof": "JSIGHT 0.3\nTYPE @base\n{\n  \"id\": 1\n}\nTYPE @mid\n{ // {allOf: \"@base\"}\n  \"name\": \"n\"\n}\nTYPE @top\n{ // {allOf: [\"@mid\"]}\n  \"x\": true\n}\nGET /a\n  200 @top\nPOST /a\n  Request @mid\n  201 [@top]\n",
-	"or":    "JSIGHT 0.3\nTYPE @a\n{\"a\": 1}\nTYPE @b\n{\"b\": \"s\"}\nTYPE @u\n@a | @b\nGET /u\n  200\n  {\n    \"v\": @u,\n    \"w\": 1 // {or: [\"integer\", \"string\"]}\n  }\n",
-	"pathenum": "JSIGHT 0.3\nENUM @color\n[\n  \"red\", // the red\n  \"blue\"\n]\nURL /cats/{id}/toys/{toy}\n  Path\n  {\n    \"id\": 1, // cat id\n    \"toy\": \"ball\"\n  }\n  GET\n    Query \"c=red\"\n    {\n      \"c\": \"red\" // {enum: @color}\n    }\n    200 any\nGET /dogs/{name}\n  200 any\n",
+	"regex":     "JSIGHT 0.3\nTYPE @r regex\n/[a-z]{5}-[0-9]{3}/\nGET /a\n  Request regex\n  /[A-Z]{7}/\n  200 regex\n  /[0-9]{8}/\n  404 @r\n",
+	"allof":     "JSIGHT 0.3\nTYPE @base\n{\n  \"id\": 1\n}\nTYPE @mid\n{ // {allOf: \"@base\"}\n  \"name\": \"n\"\n}\nTYPE @top\n{ // {allOf: [\"@mid\"]}\n  \"x\": true\n}\nGET /a\n  200 @top\nPOST /a\n  Request @mid\n  201 [@top]\n",
+	"or":        "JSIGHT 0.3\nTYPE @a\n{\"a\": 1}\nTYPE @b\n{\"b\": \"s\"}\nTYPE @u\n@a | @b\nGET /u\n  200\n  {\n    \"v\": @u,\n    \"w\": 1 // {or: [\"integer\", \"string\"]}\n  }\n",
+	"pathenum":  "JSIGHT 0.3\nENUM @color\n[\n  \"red\", // the red\n  \"blue\"\n]\nURL /cats/{id}/toys/{toy}\n  Path\n  {\n    \"id\": 1, // cat id\n    \"toy\": \"ball\"\n  }\n  GET\n    Query \"c=red\"\n    {\n      \"c\": \"red\" // {enum: @color}\n    }\n    200 any\nGET /dogs/{name}\n  200 any\n",
 	"resporder": "JSIGHT 0.3\nTAG @t // tagged\nGET /a // first\n  Tags @t\n  404 any\n    Headers\n    {\"X-Err\": \"e\"}\n  200\n  {\"ok\": true}\n  201 empty\nDELETE /a\n  500 any\n  204 empty\n",
-	"macro": "JSIGHT 0.3\nMACRO @errs\n(\n  404 any\n  500 regex\n  /err-[0-9]+/\n)\nURL /m\n  GET\n    200 any\n    PASTE @errs\n  PUT\n    Request\n      Headers\n      {\"H\": \"v\"}\n      Body any\n    PASTE @errs\n    200 any\n",
-	"rpc": "JSIGHT 0.3\nINFO\n  Title \"RPC api\"\n  Version 2\nURL /rpc\n  Protocol json-rpc-2.0\n  Method sum // adds\n    Params\n    [1, 2]\n    Result\n    3\n  Method ping\n",
+	"macro":     "JSIGHT 0.3\nMACRO @errs\n(\n  404 any\n  500 regex\n  /err-[0-9]+/\n)\nURL /m\n  GET\n    200 any\n    PASTE @errs\n  PUT\n    Request\n      Headers\n      {\"H\": \"v\"}\n      Body any\n    PASTE @errs\n    200 any\n",
+	"rpc":       "JSIGHT 0.3\nINFO\n  Title \"RPC api\"\n  Version 2\nURL /rpc\n  Protocol json-rpc-2.0\n  Method sum // adds\n    Params\n    [1, 2]\n    Result\n    3\n  Method ping\n",
 }
 
 type accessor func(j *kit.JApi) ([]byte, string)
@@ -109,10 +109,17 @@ func loadSources(spec string) ([]projSrc, error) {
 		if err := loadPools(spec[6:]); err != nil {
 			return nil, err
 		}
+		nModel := 0
 		err := forEachEmitted(spec[6:], "E", func(js string) error {
 			var cs docCase
 			if err := json.Unmarshal([]byte(js), &cs); err != nil {
 				return err
+			}
+			nModel++
+			step := 1
+			fmt.Sscan(os.Getenv("VH_SRC_STEP"), &step)
+			if step > 1 && nModel%step != 0 {
+				return nil
 			}
 			if cs.X.Res == "ok" || all {
 				out = append(out, projSrc{name: "model:" + strings.Join(cs.Blocks, ","), text: renderTokens(cs.Doc, false, canon).text})
